@@ -504,10 +504,152 @@ func runForeign(c *Ctx, fc foreignCase) {
 	}
 }
 
+// member-list views: a collection presented as its list of members
+type memberViewCase struct {
+	Kind   string // Collection CollectionPage OrderedCollection OrderedCollectionPage
+	Form   string // ptr val
+	Helper string // ToItemCollection OnItemCollection OnCollectionIntf
+	N      int
+}
+
+func (m memberViewCase) String() string {
+	return fmt.Sprintf("%s(%s %s, %d members)", m.Helper, m.Form, m.Kind, m.N)
+}
+
+var memberViewCases = func() []memberViewCase {
+	var out []memberViewCase
+	for _, k := range []string{"Collection", "CollectionPage", "OrderedCollection", "OrderedCollectionPage"} {
+		for _, f := range []string{"ptr", "val"} {
+			for _, h := range []string{"ToItemCollection", "OnItemCollection", "OnCollectionIntf"} {
+				for _, n := range []int{0, 1, 3} {
+					out = append(out, memberViewCase{k, f, h, n})
+				}
+			}
+		}
+	}
+	return out
+}()
+
+func runMemberView(c *Ctx, mc memberViewCase, idx int) {
+	ki := vmodel.KindIndex(mc.Kind)
+	src := vmodel.Kinds[ki].New()
+	sv := reflect.ValueOf(src).Elem()
+	sv.FieldByName("ID").Set(reflect.ValueOf(vocab.IRI(fmt.Sprintf("https://example.com/col/%d", idx))))
+	sv.FieldByName("Type").Set(reflect.ValueOf(vocab.ActivityVocabularyType(mc.Kind)))
+	field := "Items"
+	if strings.HasPrefix(mc.Kind, "Ordered") {
+		field = "OrderedItems"
+	}
+	var members vocab.ItemCollection
+	for i := 0; i < mc.N; i++ {
+		if i == 1 {
+			members = append(members, &vocab.Object{ID: vocab.IRI(fmt.Sprintf("https://example.com/col/%d/note", idx)), Type: vocab.NoteType})
+		} else {
+			members = append(members, vocab.IRI(fmt.Sprintf("https://example.com/col/%d/m%d", idx, i)))
+		}
+	}
+	if mc.N > 0 {
+		sv.FieldByName(field).Set(reflect.ValueOf(append(vocab.ItemCollection{}, members...)))
+	}
+	sv.FieldByName("TotalItems").SetUint(uint64(mc.N))
+	own := func() vocab.ItemCollection { return sv.FieldByName(field).Interface().(vocab.ItemCollection) }
+	var item vocab.Item = src.(vocab.Item)
+	if mc.Form == "val" {
+		item = sv.Interface().(vocab.Item)
+	}
+	label := mc.String()
+	sig := func(what string) string { return fmt.Sprintf("view|%s|%s|members|%s", mc.Helper, mc.Kind, what) }
+	same := func(a, b vocab.ItemCollection) bool {
+		if len(a) != len(b) {
+			return false
+		}
+		for i := range a {
+			if a[i] != b[i] {
+				return false
+			}
+		}
+		return true
+	}
+	extra := vocab.IRI(fmt.Sprintf("https://example.com/col/%d/appended", idx))
+	swapped := vocab.IRI(fmt.Sprintf("https://example.com/col/%d/replaced", idx))
+	c.Pending("member view " + label)
+	c.Guard(mc.Helper, func() {
+		var view *vocab.ItemCollection
+		var ci vocab.CollectionInterface
+		var err error
+		invoked := false
+		switch mc.Helper {
+		case "ToItemCollection":
+			view, err = vocab.ToItemCollection(item)
+			invoked = err == nil
+		case "OnItemCollection":
+			err = vocab.OnItemCollection(item, func(p *vocab.ItemCollection) error { view = p; invoked = true; return nil })
+		default:
+			err = vocab.OnCollectionIntf(item, func(p vocab.CollectionInterface) error { ci = p; invoked = true; return nil })
+		}
+		c.Eval(1)
+		c.Count("member-views", 1)
+		if err != nil || !invoked {
+			c.Count("member-views-refused", 1)
+			return
+		}
+		var listed vocab.ItemCollection
+		switch {
+		case ci != nil && !vocab.IsNil(ci):
+			listed = ci.Collection()
+			if int(ci.Count()) != len(members) {
+				c.Fail(sig("count"), fmt.Sprintf("%s: the view counts %d members, the collection holds %d", label, ci.Count(), len(members)), map[string]any{"case": label})
+			}
+		case view != nil:
+			listed = *view
+		default:
+			c.Count("member-views-nil", 1)
+			return
+		}
+		c.Count("member-views-accepted", 1)
+		if !same(listed, members) {
+			c.Fail(sig("read"), fmt.Sprintf("%s: the view lists %v, the collection's %s holds %v", label, listed, field, members), map[string]any{"case": label})
+			return
+		}
+		if mc.Form != "ptr" {
+			return
+		}
+		// writes through the view of a pointer are seen by the collection
+		if ci != nil {
+			_ = ci.Append(extra)
+		} else {
+			*view = append(*view, extra)
+			if mc.N > 0 {
+				(*view)[0] = swapped
+			}
+		}
+		c.Count("member-write-throughs", 1)
+		wantAfter := append(append(vocab.ItemCollection{}, members...), extra)
+		if ci == nil && mc.N > 0 {
+			wantAfter[0] = swapped
+		}
+		if got := own(); !same(got, wantAfter) {
+			c.Fail(sig("write-through"), fmt.Sprintf("%s: after appending (and replacing the first member) through the view the collection's %s holds %v, expected %v", label, field, got, wantAfter), map[string]any{"case": label})
+			return
+		}
+		// and the other way round
+		sv.FieldByName(field).Set(reflect.ValueOf(append(own(), swapped)))
+		var again vocab.ItemCollection
+		if ci != nil {
+			again = ci.Collection()
+		} else {
+			again = *view
+		}
+		if !same(again, own()) {
+			c.Fail(sig("read-after-write"), fmt.Sprintf("%s: after the collection's %s was extended the view lists %v, the collection holds %v", label, field, again, own()), map[string]any{"case": label})
+		}
+	})
+}
+
 func init() {
 	Register(&Prop{
 		ID: "C08",
-		Rule: fmt.Sprintf("every To<T>/On<T> helper (%d) x every source kind (14) x {pointer, value} x {densely populated, sparse, typed with a name of each other family} = %d conversions, enumerated completely; whenever a conversion is accepted and the source kind differs from T: (1) layout rule by reflection: sizeof(T) <= sizeof(S) and every field of T sits at the same offset in S with the same name (Items/OrderedItems excepted) and a representation-compatible type, otherwise it should have been refused; (2) every shared field reads through the view as on the original, and for pointer inputs a write through the view is seen by the original and vice versa; (3) a full read and struct copy through the view on the checkptr build (and ASan in thorough), aborts attributed through the write-ahead record; distinct = conversion; non-trivial = accepted conversions between different kinds",
+		Rule: fmt.Sprintf("every To<T>/On<T> helper (%d) x every source kind (14) x {pointer, value} x {densely populated, sparse, typed with a name of each other family} = %d conversions, enumerated completely; whenever a conversion is accepted and the source kind differs from T: (1) layout rule by reflection: sizeof(T) <= sizeof(S) and every field of T sits at the same offset in S with the same name (Items/OrderedItems excepted) and a representation-compatible type, otherwise it should have been refused; (2) every shared field reads through the view as on the original, and for pointer inputs a write through the view is seen by the original and vice versa; (3) a full read and struct copy through the view on the checkptr build (and ASan in thorough), aborts attributed through the write-ahead record; (4) the member-list views (ToItemCollection, OnItemCollection, OnCollectionIntf) of the four collection kinds x {pointer, value} x {no, one, three members}: what the view lists is what the collection's own member property holds, in order, and for pointer inputs appending and replacing through the view is seen by the collection and the other way round; distinct = conversion; non-trivial = accepted conversions between different kinds",
 			len(allViewHelpers), len(allViewCases)),
 		Builds: func(tier string) []string {
 			if tier == "thorough" {
@@ -525,6 +667,11 @@ func init() {
 					}
 					runView(c, vc, idx)
 				}},
+				{Name: "member-list-views", N: len(memberViewCases), Exhaustive: true, Run: func(c *Ctx, idx int) {
+					mc := memberViewCases[idx]
+					c.Distinct("members|"+mc.String(), true)
+					runMemberView(c, mc, idx)
+				}},
 				{Name: "foreign-types", N: len(foreignCases), Exhaustive: true, Run: func(c *Ctx, idx int) {
 					fc := foreignCases[idx]
 					c.Distinct(fmt.Sprintf("foreign|%s|reverse=%v", fc.Name, fc.Reverse), true)
@@ -533,7 +680,7 @@ func init() {
 			}
 		},
 		Floors: func(tier string) map[string]int64 {
-			return map[string]int64{"conversions": int64(len(allViewCases)), "accepted": 200, "field-reads": 5000, "write-throughs": 2000}
+			return map[string]int64{"conversions": int64(len(allViewCases)), "accepted": 200, "field-reads": 5000, "write-throughs": 2000, "member-views-accepted": 20, "member-write-throughs": 20}
 		},
 		Assumptions: []string{
 			"the list of To*/On* helpers is maintained by hand (14 families); in thorough the cover build reports which unsafe.Pointer conversion sites of the source executed",
